@@ -2,6 +2,7 @@ package main
 
 import (
 	"fmt"
+	"strings"
 	"go/ast"
 	"go/token"
 )
@@ -9,7 +10,7 @@ import (
 // Generated/App.lean: does application.start clear the termination reason of the previous run?
 
 func init() {
-	generators = append(generators, generator{name: "App", run: genApp, fallback: "namespace ErgoVerif.Gen.App\ndef startResetsReason : Bool := false\nend ErgoVerif.Gen.App\n"})
+	generators = append(generators, generator{name: "App", run: genApp, fallback: "namespace ErgoVerif.Gen.App\ndef startResetsReason : Bool := false\ndef causeAfterStoppingGuard : Bool := false\ndef unloadOnlyFromLoaded : Bool := false\nend ErgoVerif.Gen.App\n"})
 }
 
 func genApp() (string, error) {
@@ -34,5 +35,65 @@ func genApp() (string, error) {
 		}
 		return true
 	})
-	return fmt.Sprintf("namespace ErgoVerif.Gen.App\n/-- application.start assigns `a.reason = nil` -/\ndef startResetsReason : Bool := %s\nend ErgoVerif.Gen.App\n", leanBool(resets)), nil
+	// terminate(): in every case of `switch a.mode` that records the cause (`a.reason = reason`), the assignment comes
+	// after the "already in stopping -> break" guard
+	td := funcDecl(f, "application", "terminate")
+	if td == nil {
+		return "", fmt.Errorf("application.terminate not found")
+	}
+	guarded, cases := 0, 0
+	ast.Inspect(td.Body, func(n ast.Node) bool {
+		cc, ok := n.(*ast.CaseClause)
+		if !ok {
+			return true
+		}
+		assignAt, guardAt := -1, -1
+		for i, st := range cc.Body {
+			if as, ok := st.(*ast.AssignStmt); ok && len(as.Lhs) == 1 && selName(as.Lhs[0]) == "a.reason" && assignAt < 0 {
+				assignAt = i
+			}
+			if is, ok := st.(*ast.IfStmt); ok && guardAt < 0 {
+				cond := exprStr(is.Cond)
+				hasBreak := false
+				for _, b := range is.Body.List {
+					if br, ok := b.(*ast.BranchStmt); ok && br.Tok == token.BREAK {
+						hasBreak = true
+					}
+				}
+				if hasBreak && contains(cond, "ApplicationStateStopping") {
+					guardAt = i
+				}
+			}
+		}
+		if assignAt >= 0 {
+			cases++
+			if guardAt >= 0 && guardAt < assignAt {
+				guarded++
+			}
+		}
+		return true
+	})
+	// ApplicationUnload goes through tryUnload = CAS(loaded -> 0)
+	nf, err := parseFile("node/node.go")
+	if err != nil {
+		return "", err
+	}
+	unloadOK := false
+	if ud := funcDecl(nf, "node", "ApplicationUnload"); ud != nil && callsTo(ud.Body, "tryUnload") {
+		if tu := funcDecl(f, "application", "tryUnload"); tu != nil {
+			sh := stmtShape(tu.Body.List)
+			src := ""
+			ast.Inspect(tu.Body, func(n ast.Node) bool {
+				if c, ok := n.(*ast.CallExpr); ok && exprStr(c.Fun) == "atomic.CompareAndSwapInt32" && len(c.Args) == 3 {
+					src = exprStr(c.Args[1]) + "->" + exprStr(c.Args[2])
+				}
+				return true
+			})
+			unloadOK = sh == "return" && src == "int32(gen.ApplicationStateLoaded)->0"
+		}
+	}
+	return fmt.Sprintf("namespace ErgoVerif.Gen.App\n/-- application.start assigns `a.reason = nil` -/\ndef startResetsReason : Bool := %s\n/-- terminate(): every mode case that records the cause does so after its \"already stopping -> break\" guard (%d of %d) -/\ndef causeAfterStoppingGuard : Bool := %s\n/-- ApplicationUnload succeeds only through CAS(loaded -> 0) -/\ndef unloadOnlyFromLoaded : Bool := %s\nend ErgoVerif.Gen.App\n",
+		leanBool(resets), guarded, cases, leanBool(cases > 0 && guarded == cases), leanBool(unloadOK)), nil
 }
+
+func contains(s, sub string) bool { return strings.Contains(s, sub) }
